@@ -170,60 +170,134 @@ theorem C07_proxy_bin_fails :
     reqSpec false o (items .proxy r) (targetMD .proxy o r) = false := by
   decide
 
-/-- **Default options forward nothing, in either direction, on every entry point.** -/
-theorem C07_default_deny (en : Entry) (o : Opts) (r : Request) (unary : Bool) (hdr trl : MD)
+/-- **Default options forward nothing, in either direction, on every entry point**, however the
+    target's stream ends. -/
+theorem C07_default_deny (en : Entry) (o : Opts) (r : Request) (streaming : Bool) (s : Script) (hdr trl : MD)
     (h1 : o.allowReq = []) (h2 : o.allowResp = []) (h3 : o.allowTrl = []) :
-    targetMD en o r = [] ∧ clientVisible en o unary hdr trl = ([], []) := by
+    targetMD en o r = [] ∧ clientVisible en o streaming s hdr trl = ([], []) := by
   constructor
   · rw [C07_all_entries, h1]; simp [filterRequest, MD.delete]
-  · unfold clientVisible filterResponseMD filterTrailerMD
-    rw [h2, h3]
-    cases en <;> cases unary <;> simp [filterResponse, appendHeaders, appendTrailers]
+  · have e1 : filterResponseMD o (s.header hdr) = [] := by unfold filterResponseMD; rw [h2]; rfl
+    have e2 : filterTrailerMD o trl = [] := by unfold filterTrailerMD; rw [h3]; rfl
+    unfold clientVisible forwardResponse
+    simp only [e1, e2]
+    cases en <;> cases streaming <;> simp [appendHeaders, appendTrailers, optMD] <;>
+      (split <;> simp [optMD, appendHeaders])
 
-/-- **Response direction, end to end** (all five entry points): every header value the client can
-    observe that stems from target metadata is licensed by the response allow-list against the
-    target's headers or (unary HTTP: trailers are sent as headers) by the trailer allow-list against
-    the target's trailers; every trailer value by the trailer allow-list.  Names compare up to ASCII
-    case (HTTP canonicalises them). -/
-theorem C07_client_only_allowed (en : Entry) (o : Opts) (unary : Bool) (hdr trl : MD) :
-    (∀ e ∈ (clientVisible en o unary hdr trl).1, ∀ v ∈ e.2,
-        (∃ a ∈ o.allowResp, lower e.1 = lower (o.prefixResp ++ a) ∧ v ∈ hdr.get a) ∨
-        (∃ a ∈ o.allowTrl, lower e.1 = lower (o.prefixTrl ++ a) ∧ v ∈ trl.get a)) ∧
-    (∀ e ∈ (clientVisible en o unary hdr trl).2, ∀ v ∈ e.2,
+/-- **What `Forward` hands to the incoming stream**, for every way the target's stream can end (headers
+    sent or Trailers-Only, any number of messages, EOF or error): the `SetHeader` argument is the RESPONSE
+    allow-list applied to the target's HEADER block, the `SetTrailer` argument (when called) the TRAILER
+    allow-list applied to its TRAILER block — never one list applied to the other block. -/
+theorem C07_forward_response_blocks (o : Opts) (streaming : Bool) (s : Script) (hdr trl : MD) :
+    (forwardResponse o streaming s hdr trl).1 = filterResponseMD o (s.header hdr) ∧
+    ∀ t, (forwardResponse o streaming s hdr trl).2.1 = some t → t = filterTrailerMD o trl := by
+  unfold forwardResponse
+  simp only
+  cases streaming
+  · simp only [Bool.false_eq_true, ↓reduceIte]
+    split
+    · exact ⟨rfl, fun t ht => by simp at ht⟩
+    · exact ⟨rfl, fun t ht => by simpa using ht.symm⟩
+  · simp only [↓reduceIte]
+    exact ⟨by first | rfl | trivial, fun t ht => by simpa using ht.symm⟩
+
+/-- A Trailers-Only response (the target failed, or finished, before sending headers) puts NOTHING into
+    the response headers, whatever its trailers carry and whatever the response allow-list names. -/
+theorem C07_trailers_only_no_headers (o : Opts) (streaming : Bool) (s : Script) (hdr trl : MD)
+    (h : s.hdrSent = false) : (forwardResponse o streaming s hdr trl).1 = [] := by
+  rw [(C07_forward_response_blocks o streaming s hdr trl).1]
+  unfold Script.header filterResponseMD
+  rw [h]
+  simp only [Bool.false_eq_true, ↓reduceIte]
+  have : ∀ allow : List Bytes, ∀ out : MD, allow.foldl (respStep [] o.prefixResp) out = out := by
+    intro allow
+    induction allow with
+    | nil => intro out; rfl
+    | cons a rest ih => intro out; simp only [List.foldl_cons]; rw [show respStep [] o.prefixResp out a = out from by simp [respStep, MD.get, MD.lookup]]; exact ih out
+  exact this _ _
+
+/-- **Response direction, end to end** (all five entry points, every way the target's stream can end).
+    Every header value the client can observe that stems from target metadata is licensed by the
+    RESPONSE allow-list against the target's HEADER block (`Header()`: empty for Trailers-Only); the only
+    exception is the HTTP entry while no body byte has been written (unary calls, or no message
+    delivered), where trailers are sent as headers and are then licensed by the TRAILER allow-list
+    against the TRAILER block.  Every trailer value is licensed by the TRAILER allow-list against the
+    TRAILER block.  Names compare up to ASCII case (HTTP canonicalises them). -/
+theorem C07_client_only_allowed (en : Entry) (o : Opts) (streaming : Bool) (s : Script) (hdr trl : MD) :
+    (∀ e ∈ (clientVisible en o streaming s hdr trl).1, ∀ v ∈ e.2,
+        (∃ a ∈ o.allowResp, lower e.1 = lower (o.prefixResp ++ a) ∧ v ∈ (s.header hdr).get a) ∨
+        (en = .http ∧ ¬ (streaming = true ∧ (forwardResponse o streaming s hdr trl).2.2 > 0) ∧
+          ∃ a ∈ o.allowTrl, lower e.1 = lower (o.prefixTrl ++ a) ∧ v ∈ trl.get a)) ∧
+    (∀ e ∈ (clientVisible en o streaming s hdr trl).2, ∀ v ∈ e.2,
         ∃ a ∈ o.allowTrl, lower e.1 = lower (o.prefixTrl ++ a) ∧ v ∈ trl.get a) := by
-  let SH : Bytes → Bytes → Prop := fun K v =>
-    (∃ a ∈ o.allowResp, lower K = lower (o.prefixResp ++ a) ∧ v ∈ hdr.get a) ∨
-    (∃ a ∈ o.allowTrl, lower K = lower (o.prefixTrl ++ a) ∧ v ∈ trl.get a)
+  let SR : Bytes → Bytes → Prop := fun K v =>
+    ∃ a ∈ o.allowResp, lower K = lower (o.prefixResp ++ a) ∧ v ∈ (s.header hdr).get a
   let ST : Bytes → Bytes → Prop := fun K v =>
     ∃ a ∈ o.allowTrl, lower K = lower (o.prefixTrl ++ a) ∧ v ∈ trl.get a
-  have fh : ∀ e ∈ filterResponseMD o hdr, ∀ v ∈ e.2, ∀ K, lower K = lower e.1 → SH K v := by
+  have fh : ∀ e ∈ filterResponseMD o (s.header hdr), ∀ v ∈ e.2, ∀ K, lower K = lower e.1 → SR K v := by
     intro e he v hv K hK
-    obtain ⟨a, ha, h1, h2, _⟩ := C07_filter_response_only_allowed o hdr e he
-    exact Or.inl ⟨a, ha, by rw [hK, h1, lower_lower], by rw [← h2]; exact hv⟩
+    obtain ⟨a, ha, h1, h2, _⟩ := C07_filter_response_only_allowed o _ e he
+    exact ⟨a, ha, by rw [hK, h1, lower_lower], by rw [← h2]; exact hv⟩
   have ft : ∀ e ∈ filterTrailerMD o trl, ∀ v ∈ e.2, ∀ K, lower K = lower e.1 → ST K v := by
     intro e he v hv K hK
     obtain ⟨a, ha, h1, h2, _⟩ := C07_filter_trailer_only_allowed o trl e he
     exact ⟨a, ha, by rw [hK, h1, lower_lower], by rw [← h2]; exact hv⟩
-  have eH : ESrc (filterResponseMD o hdr) SH := fun e he v hv => fh e he v hv e.1 rfl
-  have eT : ESrc (filterTrailerMD o trl) ST := fun e he v hv => ft e he v hv e.1 rfl
-  have aH : ESrc (appendHeaders [] (filterResponseMD o hdr)) SH :=
-    appendHeaders_src _ _ SH (esrc_nil _) (fun e he v hv => fh e he v hv _ (lower_canonKey e.1))
-  have aT : ESrc (appendHeaders [] (filterTrailerMD o trl)) ST :=
-    appendHeaders_src _ _ ST (esrc_nil _) (fun e he v hv => ft e he v hv _ (lower_canonKey e.1))
-  have aHT : ESrc (appendHeaders (appendHeaders [] (filterResponseMD o hdr)) (filterTrailerMD o trl)) SH :=
-    appendHeaders_src _ _ SH aH (fun e he v hv => Or.inr (ft e he v hv _ (lower_canonKey e.1)))
+  -- whatever SetTrailer got (or nothing), it is licensed by the trailer list against the trailer block
+  have ftO : ∀ t? : Option MD, (∀ t, t? = some t → t = filterTrailerMD o trl) →
+      ∀ e ∈ optMD t?, ∀ v ∈ e.2, ∀ K, lower K = lower e.1 → ST K v := by
+    intro t? ht e he v hv K hK
+    cases t? with
+    | none => simp [optMD] at he
+    | some t => rw [ht t rfl] at he; exact ft e he v hv K hK
+  obtain ⟨hb1, hb2⟩ := C07_forward_response_blocks o streaming s hdr trl
   unfold clientVisible
-  cases en <;> cases unary <;> simp only [appendTrailers]
-  all_goals first
-    | exact ⟨fun e he v hv => aHT e he v hv, fun e he => by simp at he⟩
-    | exact ⟨fun e he v hv => aH e he v hv, fun e he v hv => aT e he v hv⟩
-    | exact ⟨fun e he v hv => aH e he v hv, fun e he v hv => eT e he v hv⟩
-    | exact ⟨fun e he v hv => eH e he v hv, fun e he v hv => eT e he v hv⟩
-    | exact ⟨fun e he => by simp at he, fun e he => by simp at he⟩
+  generalize hfr : forwardResponse o streaming s hdr trl = fr at hb1 hb2
+  obtain ⟨h0, t?, n⟩ := fr
+  simp only at hb1 hb2
+  subst hb1
+  have eR : ESrc (filterResponseMD o (s.header hdr)) SR := fun e he v hv => fh e he v hv e.1 rfl
+  have eT : ESrc (optMD t?) ST := fun e he v hv => ftO t? hb2 e he v hv e.1 rfl
+  have aR : ESrc (appendHeaders [] (filterResponseMD o (s.header hdr))) SR :=
+    appendHeaders_src _ _ SR (esrc_nil _) (fun e he v hv => fh e he v hv _ (lower_canonKey e.1))
+  have aT : ESrc (appendHeaders [] (optMD t?)) ST :=
+    appendHeaders_src _ _ ST (esrc_nil _) (fun e he v hv => ftO t? hb2 e he v hv _ (lower_canonKey e.1))
+  cases en with
+  | http =>
+    simp only [appendTrailers]
+    by_cases hc : (streaming && decide (n > 0)) = true
+    · simp only [hc, ↓reduceIte]
+      exact ⟨fun e he v hv => Or.inl (aR e he v hv), fun e he v hv => aT e he v hv⟩
+    · simp only [hc, Bool.false_eq_true, ↓reduceIte]
+      have hearly : ¬ (streaming = true ∧ n > 0) := by
+        intro ⟨h1, h2⟩; apply hc; simp [h1, h2]
+      have aRT : ESrc (appendHeaders (appendHeaders [] (filterResponseMD o (s.header hdr))) (optMD t?))
+          (fun K v => SR K v ∨ ST K v) :=
+        appendHeaders_src _ _ _ (esrc_mono _ _ _ aR (fun _ _ h => Or.inl h))
+          (fun e he v hv => Or.inr (ftO t? hb2 e he v hv _ (lower_canonKey e.1)))
+      refine ⟨fun e he v hv => ?_, fun e he => by simp at he⟩
+      rcases aRT e he v hv with h | h
+      · exact Or.inl h
+      · exact Or.inr ⟨by first | rfl | trivial, hearly, h⟩
+  | ws => exact ⟨fun e he => by simp at he, fun e he => by simp at he⟩
+  | grpcweb => exact ⟨fun e he v hv => Or.inl (aR e he v hv), fun e he v hv => eT e he v hv⟩
+  | grpcws =>
+    refine ⟨fun e he v hv => ?_, fun e he v hv => eT e he v hv⟩
+    simp only at he
+    split at he
+    · exact Or.inl (eR e he v hv)
+    · simp at he
+  | proxy => exact ⟨fun e he v hv => Or.inl (eR e he v hv), fun e he v hv => eT e he v hv⟩
+
+/-- The seeded regression in one line: a Trailers-Only failure whose trailer `x-r` is on the response
+    list but not on the trailer list shows the client nothing — on every entry point. -/
+theorem C07_trailers_only_example (en : Entry) :
+    clientVisible en { allowResp := [[120,45,114]], allowTrl := [[120,45,116]] } true
+      { hdrSent := false, msgs := 0, ok := false } [] [([120,45,114], [[115]])] = ([], []) := by
+  cases en <;> decide
 
 /-- Nothing at all is observable on the plain WebSocket entry (no headers after the upgrade, no trailers). -/
-theorem C07_websocket_nothing (o : Opts) (unary : Bool) (hdr trl : MD) :
-    clientVisible .ws o unary hdr trl = ([], []) := rfl
+theorem C07_websocket_nothing (o : Opts) (streaming : Bool) (s : Script) (hdr trl : MD) :
+    clientVisible .ws o streaming s hdr trl = ([], []) := rfl
 
 /-- The hypotheses above are satisfiable and the renaming / decoding behaves as documented
     (gateway prefix stripped case-insensitively; padded and unpadded base64; undecodable value
